@@ -8,7 +8,8 @@
 (* ====================================================================== *)
 Require Import Arith Lia List Bool ZArith QArith Qcanon.
 From TK Require Import Mat_Sums Mat_Core Mat_Qc Mat_EigSelect EigSelect Mat_EigSelect_Tie
-                       Lap_Model Lap_Spec Lap_Exec Lap_Proof_Lap Lap_Proof_Embed Lap_Proof_Dm.
+                       Lap_Model Lap_Spec Lap_Exec Lap_Proof_Lap Lap_Proof_Embed Lap_Proof_Dm
+                       Lap_Proof_Total Lap_Proof_Order.
 Import ListNotations.
 Local Open Scope list_scope.
 Local Open Scope nat_scope.
@@ -97,13 +98,8 @@ Print Assumptions Lap_embedding_partial.
    generalised eigenvalues 0, 1, 2 *)
 Definition ex_L : mat Qc := mof [[qz 1; qz (-1); qz 0]; [qz (-1); qz 2; qz (-1)]; [qz 0; qz (-1); qz 1]].
 Definition ex_D : mat Qc := mdiag (vof [qz 1; qz 2; qz 1]).
-Definition ex_V : mat Qc :=
-  mof [[qfrac 1 2; qfrac 1 1; qfrac 1 2]; [qfrac 1 2; qz 0; qfrac (-1) 2]; [qfrac 1 2; qz (-1); qfrac 1 2]].
-Definition ex_V' : mat Qc := fun i j => if Nat.eqb j 1 then (ex_V i j * qfrac 1 1)%F else ex_V i j.
-Definition ex_lam : vec Qc := vof [qz 0; qz 1; qz 2].
-
-(* the middle column must have D-norm 1: (1,0,-1)/sqrt 2 is irrational, so the example uses d = 1 on the
-   LAST pair by listing the pairs in the order 0, 2, 1 *)
+(* the pair (1, (1,0,-1)/sqrt 2) is irrational: the example lists the pairs in the order 0, 2, 1 and uses the
+   first two columns (the contract clauses are checked on them) *)
 Definition ex_V2 : mat Qc :=
   mof [[qfrac 1 2; qfrac 1 2; qz 1]; [qfrac 1 2; qfrac (-1) 2; qz 0]; [qfrac 1 2; qfrac 1 2; qz (-1)]].
 Definition ex_lam2 : vec Qc := vof [qz 0; qz 2; qz 1].
@@ -278,7 +274,118 @@ Proof.
   vm_compute. reflexivity.
 Qed.
 
-(* 11. the eigenvalue slice of the smallest-eigenvalue site (defect F7, known finding): for whichever form the
+(* 12. compute_laplacian never leaves a container on well-formed neighbour lists: at least n lists, each of
+       the first n with at least k = |neighbors[0]| entries, the first k entries of each < n.  (Theorem 1 shows
+       that LOk conversely implies the id condition, so it is also necessary.) *)
+Theorem Lap_laplacian_total :
+  forall (F : Type) (Fo : FieldOps F) (dist : nat -> nat -> F) (width : F) (expo : F -> F)
+         (n : nat) (nbrs : list (list nat)) (k : nat),
+    n <= length nbrs ->
+    (forall i, i < n -> k <= length (nth i nbrs [])) ->
+    (forall i q, i < n -> q < k -> nb_at nbrs i q < n) ->
+    k = length (hd [] nbrs) -> nbrs <> [] ->
+    exists ts D, compute_laplacian dist width expo n nbrs = LOk (ts, D).
+Proof. exact @compute_laplacian_total. Qed.
+Print Assumptions Lap_laplacian_total.
+
+Example Lap_laplacian_total_nonvacuous :
+  3 <= length ex_nbrs /\ (forall i, i < 3 -> 2 <= length (nth i ex_nbrs [])) /\
+  (forall i q, i < 3 -> q < 2 -> nb_at ex_nbrs i q < 3) /\ 2 = length (hd [] ex_nbrs) /\ ex_nbrs <> [].
+Proof.
+  split; [cbn; lia|]. split.
+  { intros i Hi. destruct i as [|[|[|i]]]; cbn; lia. }
+  split.
+  { intros i q Hi Hq. destruct i as [|[|[|i]]]; destruct q as [|[|q]]; cbn; lia. }
+  split; [reflexivity|discriminate].
+Qed.
+
+(* 13. the ORDER part, at the ordered field Qc (the instance that is run): with non-negative heat weights L is
+       positive semi-definite; with positive weights on a connected neighbourhood graph its kernel is the
+       constant vectors *)
+Theorem Lap_psd_Qc :
+  forall (heat : nat -> nat -> Qc) (n : nat) (nbrs : list (list nat)) (k : nat),
+    (forall i q, i < n -> q < k -> nb_at nbrs i q < n) ->
+    forall y : vec Qc,
+    (forall i q, i < n -> q < k -> (0 <= heat i (nb_at nbrs i q))%Qc) ->
+    (0 <= dot n y (mv n (matL heat k nbrs n) y))%Qc.
+Proof. exact lap_psd. Qed.
+Print Assumptions Lap_psd_Qc.
+
+Theorem Lap_kernel_connected_Qc :
+  forall (heat : nat -> nat -> Qc) (n : nat) (nbrs : list (list nat)) (k : nat),
+    (forall i q, i < n -> q < k -> nb_at nbrs i q < n) ->
+    (forall i q, i < n -> q < k -> (0 < heat i (nb_at nbrs i q))%Qc) ->
+    forall y : vec Qc,
+    lconnected n nbrs k ->
+    dot n y (mv n (matL heat k nbrs n) y) = 0%Qc ->
+    forall i, i < n -> y i = y 0.
+Proof. exact lap_kernel_connected. Qed.
+Print Assumptions Lap_kernel_connected_Qc.
+
+(* 14. Laplacian Eigenmaps, full statement at Qc: from ANY answer of the generalised solver that meets its
+       contract and lists its eigenvalues in ascending order, on a connected graph with positive weights: all
+       eigenvalues are >= 0, every one but lam_0 is > 0, the returned columns are generalised eigenvectors for
+       lam_1 .. lam_d, D-orthonormal, D-orthogonal to 1, and no eigenvalue of the answer beyond lam_d is
+       smaller than a kept one: the d smallest non-zero eigenvalues of the answer.
+       _partial: that the answer is COMPLETE (its N pairs exhaust the spectrum of the pencil) is the solver's
+       contract plus finite-dimensional linear algebra (N D-orthonormal vectors form a basis), cited. *)
+Theorem Lap_smallest_nonzero_Qc_partial :
+  forall (heat : nat -> nat -> Qc) (n : nat) (nbrs : list (list nat)) (k d : nat)
+         (Dm V : mat Qc) (lam : vec Qc),
+    d + 1 <= n ->
+    (forall i q, i < n -> q < k -> nb_at nbrs i q < n) ->
+    (forall i q, i < n -> q < k -> (0 < heat i (nb_at nbrs i q))%Qc) ->
+    lconnected n nbrs k ->
+    msym n Dm ->
+    gen_contract n (matL heat k nbrs n) Dm V lam ->
+    (forall a b, a <= b -> b < n -> (lam a <= lam b)%Qc) ->
+    (forall c, c < n -> (0 <= lam c)%Qc) /\
+    (forall c, 1 <= c -> c < n -> (0 < lam c)%Qc) /\
+    (exists Y, le_embedding n d V = Some Y /\
+               (forall r c, Y r c = V r (1 + c)) /\
+               le_spec n d (matL heat k nbrs n) Dm Y (fun c => lam (1 + c))) /\
+    (forall c c', c < d -> d < c' -> c' < n -> (lam (1 + c)%nat <= lam c')%Qc).
+Proof. exact le_smallest_nonzero. Qed.
+Print Assumptions Lap_smallest_nonzero_Qc_partial.
+
+(* complete rational instance: 4-cycle with unit weights and one neighbour list per node = both cycle
+   neighbours.  W = 2 * adjacency, D = 4 I, L = 4 I - 2 Adj; generalised eigenvalues 0, 1, 1, 2 with the
+   Hadamard vectors / 4 ... columns scaled so that V^T D V = I (entries +-1/4). *)
+Definition c4_nbrs : list (list nat) := [[1; 3]; [0; 2]; [1; 3]; [0; 2]].
+Definition c4_heat : nat -> nat -> Qc := fun _ _ => qz 1.
+Definition q4 : Qc := qfrac 1 4.
+Definition c4_V : mat Qc :=
+  mof [[q4; q4; q4; q4]; [q4; q4; (-q4)%Qc; (-q4)%Qc]; [q4; (-q4)%Qc; (-q4)%Qc; q4]; [q4; (-q4)%Qc; q4; (-q4)%Qc]].
+Definition c4_lam : vec Qc := vof [qz 0; qz 1; qz 1; qz 2].
+Definition c4_D : mat Qc := mdiag (degD c4_heat 2 c4_nbrs 4).
+
+Example Lap_smallest_nonzero_nonvacuous :
+  (forall i q, i < 4 -> q < 2 -> nb_at c4_nbrs i q < 4) /\
+  (forall i q, i < 4 -> q < 2 -> (0 < c4_heat i (nb_at c4_nbrs i q))%Qc) /\
+  lconnected 4 c4_nbrs 2 /\
+  msym 4 c4_D /\
+  gen_contract 4 (matL c4_heat 2 c4_nbrs 4) c4_D c4_V c4_lam /\
+  (forall a b, a <= b -> b < 4 -> (c4_lam a <= c4_lam b)%Qc).
+Proof.
+  split.
+  { intros i q Hi Hq. destruct i as [|[|[|[|i]]]]; destruct q as [|[|q]]; cbn; lia. }
+  split.
+  { intros i q Hi Hq. reflexivity. }
+  split.
+  { intros i Hi. destruct i as [|[|[|[|i]]]]; try lia.
+    - apply lr_refl.
+    - apply (lr_fwd 4 c4_nbrs 2 0 0 0); [apply lr_refl|lia|lia].
+    - apply (lr_fwd 4 c4_nbrs 2 0 1 1); [|lia|lia].
+      apply (lr_fwd 4 c4_nbrs 2 0 0 0); [apply lr_refl|lia|lia].
+    - apply (lr_fwd 4 c4_nbrs 2 0 0 1); [apply lr_refl|lia|lia]. }
+  split; [apply mdiag_sym|].
+  split.
+  { split; apply meq_by_compute; vm_compute; reflexivity. }
+  intros a b Hab Hb.
+  destruct a as [|[|[|[|a]]]]; destruct b as [|[|[|[|b]]]]; try lia; vm_compute; discriminate.
+Qed.
+
+(* 15. the eigenvalue slice of the smallest-eigenvalue site (defect F7, known finding): for whichever form the
        generated table of the tree has, either the refutation with witness or the in-range theorem *)
 Theorem Lap_eig_segment_table :
   (f7_present = true /\
